@@ -83,7 +83,7 @@ def run_cell(rec, cell):
         _run(rec, sim, R, V, f1, f2, cl, conc, au, tr, srv)
     finally:
         sim.teardown()
-    if rec.evaluations % 977 == 0:
+    if rec.evaluations % 977 == 1:
         rec.sample({'cell': desc})
 
 
